@@ -42,7 +42,8 @@ def run(ctx):
                 "sources from those callables created by one or two from_source calls; (O) receiver in {A, A.map, D} x one or "
                 "two operations from {add, subtract, multiply, divide, power, join (match / no match / along x), broadcast} with "
                 "operands whose coordinates differ, and {map, add scalar, sum, sum keep_dim, mean, select, isel, stack, "
-                f"concatenate (also on a size-1 dimension), flatten, expand, transform}}; (T) the same parametrised operation (flatten / stack axis, "
+                f"concatenate (also on a size-1 dimension), flatten, expand, transform}}; (L) the binary operations between slices made by select / isel of different labels "
+                f"(scalar coordinate before / after the remaining dimension, 0-d operands); (T) the same parametrised operation (flatten / stack axis, "
                 f"expand internal_dim, sum / mean / concatenate backend kwargs, add scalar) twice from one receiver with different values; constants {consts}; non-trivial = at "
                 "least two operations; every case is built twice; TLC evaluates FluentNames!Post on the logged node names, "
                 "payload identities (as they are at the end of the case, compared within and across cases) and before/after snapshots "
